@@ -200,6 +200,8 @@ pub enum Act {
     Sleep(u64),
     /// sleep until this absolute virtual time (ms); nothing if it has passed
     SleepUntil(u64),
+    /// let REAL time pass (blocks the thread): only for the rare cases run under the real wall clock
+    RealSleep(u64),
     /// a whole frame (VarInt length, VarInt id, body), delivered atomically
     Frame { id: i32, body: Vec<u8> },
     /// raw bytes delivered atomically (malformed frames, segments)
@@ -490,11 +492,12 @@ pub fn run_scenario(sc: &Scenario, rng: &mut Rng) -> RunRecord {
         // glue mode: between the Encryption Response and the next client frame nothing is awaited
         let mut gluing = false;
         for act in sc.acts.iter() {
-            if gluing && matches!(act, Act::Sleep(_) | Act::SleepUntil(_) | Act::WaitServer { .. }) { continue; }
+            if gluing && matches!(act, Act::Sleep(_) | Act::SleepUntil(_) | Act::RealSleep(_) | Act::WaitServer { .. }) { continue; }
             if matches!(act, Act::Frame { .. } | Act::Raw(_)) { gluing = false; }
             match act {
                 Act::Sleep(ms) => { let t = pipe.now_ms() + ms; advance_until!(t, false); }
                 Act::SleepUntil(t) => { let t = *t; if t > pipe.now_ms() { advance_until!(t, false); } }
+                Act::RealSleep(ms) => { advance_until!(pipe.now_ms(), false); std::thread::sleep(Duration::from_millis(*ms)); }
                 Act::Frame { id, body } => {
                     if is_done!() { continue; }
                     let f = frame_bytes(*id, body);
